@@ -116,7 +116,8 @@ func checkC13(r *Run) {
 	c.ruleThreeWaySelect(r4, nil, pingSites)
 }
 
-func (c *Ctx) ruleKeepAliveClassify(rr *RuleRep, ka *ssa.Function, ctx, ctxTo ssa.Value, wt, ping *ssa.Call, fe ifEdge) {
+func (c *Ctx) ruleKeepAliveClassify(rr *RuleRep, ka *ssa.Function, ctx, ctxTo ssa.Value, wt, ping *ssa.Call, fe ifEdge, onlyParent ...bool) {
+	parentOnly := len(onlyParent) > 0 && onlyParent[0]
 	var selParent, selTo *ssa.Select
 	merged := false
 	eachInstr(ka, func(in ssa.Instruction) {
@@ -204,6 +205,9 @@ func (c *Ctx) ruleKeepAliveClassify(rr *RuleRep, ka *ssa.Function, ctx, ctxTo ss
 		}
 	}
 	chk(pCase, "parent-cancelled", func(v ssa.Value) bool { return c.isCtxMethodOf(v, "Err", ctx) }, "the parent context's error")
+	if parentOnly {
+		return
+	}
 	chk(tCase, "timeout", func(v ssa.Value) bool { return c.isGlobalLoad(v, "ErrPingTimeout") }, "ErrPingTimeout")
 	// fallthrough returns the ping's own error
 	var tDef *selCase
